@@ -99,6 +99,11 @@ func adversarialNames(rng *rand.Rand, prefix string, n, bits int) []string {
 	return out
 }
 
+var c17SpecialNames = []string{"lit\\key", "50%", "a*b", "q?z", "[br]acket", "back\\", "plain-literal"}
+
+// patterns that address the special names: escapes only, no wildcard / escapes plus wildcards / plain literal
+var c17SpecialPatterns = []string{"lit\\\\key", "a\\*b", "q\\?z", "\\[br\\]acket", "50\\%", "plain-literal", "pl\\ain-literal", "a\\**", "*\\?*", "back\\\\", "LITERAL"}
+
 type c17Names struct {
 	Stable, Pre, New, Never []string
 }
@@ -154,8 +159,19 @@ func c17Run(r *verdict.Run, e *emu, cs c17Case, rng *rand.Rand) {
 	}
 	volatileNew := names("vn:", nNew) // inserted during the iteration
 	never := names("nv:", 8)
+	if cs.size >= 5 {
+		// names that contain the glob metacharacters themselves (matched through escaped or literal patterns)
+		stable = append(stable, c17SpecialNames...)
+	}
 	if cs.fixed != nil {
 		stable, volatilePre, volatileNew, never = cs.fixed.Stable, cs.fixed.Pre, cs.fixed.New, cs.fixed.Never
+	}
+	if cs.match == "LITERAL" {
+		// a pattern without any wildcard: exactly one stable name
+		cs.match = "nomatch"
+		if len(stable) > 0 {
+			cs.match = stable[0]
+		}
 	}
 	typesOf := map[string]string{}
 	valueOf := map[string]map[string]bool{} // hscan: values a field held
@@ -524,7 +540,7 @@ func c17Run(r *verdict.Run, e *emu, cs c17Case, rng *rand.Rand) {
 }
 
 func checkC17(r *verdict.Run) {
-	r.Rule = "full iterations (cursor 0 -> ... -> 0, cursors fed back verbatim) of SCAN/HSCAN/SSCAN over collections of 0-3000 elements with COUNT in {1,2,7,10,100,10000}, with and without MATCH/TYPE, while the driver itself grows (several table doublings), shrinks (table halving), grows-shrinks-grows, churns or completely empties (key by key, or by FLUSHDB/FLUSHALL/DEL) the collection between calls (during the first calls or spread over the iteration); names random or chosen to share 10-16 low hash bits (long doubling chains); keys removed by DEL, UNLINK or a passed deadline (the latter two leave dead keys in the table, some already dead when the iteration starts), on fresh tables and on tables aged by add/remove cycles. " +
+	r.Rule = "full iterations (cursor 0 -> ... -> 0, cursors fed back verbatim) of SCAN/HSCAN/SSCAN over collections of 0-3000 elements with COUNT in {1,2,7,10,100,10000}, with and without MATCH/TYPE (patterns with wildcards, with escapes only, plain literals; names that contain the metacharacters themselves), while the driver itself grows (several table doublings), shrinks (table halving), grows-shrinks-grows, churns or completely empties (key by key, or by FLUSHDB/FLUSHALL/DEL) the collection between calls (during the first calls or spread over the iteration); names random or chosen to share 10-16 low hash bits (long doubling chains); keys removed by DEL, UNLINK or a passed deadline (the latter two leave dead keys in the table, some already dead when the iteration starts), on fresh tables and on tables aged by add/remove cycles. " +
 		"oracle (set arithmetic, no model of the cursor): returned >= stable elements matching the filter, nothing never-present, already dead or non-matching returned, HSCAN values were really held, termination within 4*(elements)/COUNT+64 calls and no cursor repeated after mutations stop. distinct = (command, script, size, COUNT, filter, adversarial bits)"
 	sizes := []int{0, 1, 5, 17, 100}
 	counts := []int{1, 2, 7, 10, 100, 10000}
@@ -546,7 +562,9 @@ func checkC17(r *verdict.Run) {
 						continue
 					}
 					c := c17Case{kind: kind, size: size, count: cnt, script: script}
-					switch rng0.Intn(5) {
+					switch rng0.Intn(6) {
+					case 5:
+						c.match = c17SpecialPatterns[rng0.Intn(len(c17SpecialPatterns))]
 					case 0:
 						c.match = "st:*"
 					case 1:
@@ -575,7 +593,9 @@ func checkC17(r *verdict.Run) {
 			for _, c := range base {
 				c2 := c
 				c2.match, c2.typ, c2.adverse = "", "", 0
-				switch rng0.Intn(6) {
+				switch rng0.Intn(7) {
+				case 6:
+					c2.match = c17SpecialPatterns[rng0.Intn(len(c17SpecialPatterns))]
 				case 0:
 					c2.match = "v?:*"
 				case 1:
@@ -609,6 +629,9 @@ func checkC17(r *verdict.Run) {
 			}
 			c2.prechurn = []int{0, c.size/2 + 1, c.size + 3, 2*c.size + 9, 8, 16, 32, 64, rng0.Intn(4*c.size + 40)}[rng0.Intn(9)]
 			c2.spread = rng0.Intn(2) == 0
+			if rng0.Intn(4) == 0 {
+				c2.match = c17SpecialPatterns[rng0.Intn(len(c17SpecialPatterns))]
+			}
 			if c2.size >= 400 {
 				c2.prechurn = c2.prechurn % 200
 			}
